@@ -72,6 +72,11 @@ Definition events_in (d0 : dict) (o : op) : list event :=
       | Ok _ => map (fun kv => JSet (kp ++ [fst kv]) (snd kv)) kvs
       | Err _ => []
       end
+  | UpdateBoth fl kp kvs kw =>
+      match nav fl d0 kp with
+      | Ok _ => map (fun kv => JSet (kp ++ [fst kv]) (snd kv)) (kvs ++ kw)
+      | Err _ => []
+      end
   | _ => []
   end.
 
@@ -80,7 +85,7 @@ Definition op_kp (o : op) : option path :=
   match o with
   | Get _ kp _ | SetV _ kp _ _ | Del _ kp _ | Pop _ kp _ _ | PopItem _ kp | Clear _ kp
   | SetDefault _ kp _ _ | Update _ kp _ | Contains _ kp _ | Len _ kp | Keys _ kp
-  | View _ kp | EqD _ kp _ | GetM _ kp _ _ => Some kp
+  | View _ kp | EqD _ kp _ | GetM _ kp _ _ | UpdateBoth _ kp _ _ => Some kp
   | _ => None
   end.
 
@@ -214,6 +219,17 @@ Proof.
     destruct (nav fl d0 kp) as [d|e] eqn:Hn; simpl.
     + destruct (get k d); simpl; apply Hsame; intros e H; discriminate.
     + apply Hsame. eapply nav_err_benign; eassumption.
+  - (* UpdateBoth *)
+    destruct (nav fl d0 kp) as [dn|e] eqn:Hn; simpl.
+    + pose proof Hlive as Hcu.
+      unfold do_update. destruct (kvs ++ kw) as [|kv kvs'] eqn:Ek.
+      * simpl. apply Hsame. intros e H; discriminate.
+      * rewrite excise_not_blocked by (apply clear_upto_above; assumption).
+        destruct HG as [HL HI HC].
+        destruct (fold_update S kp (kv :: kvs') c J Hok HL HI Hcu) as [HL' HI'].
+        destruct (remerge_good S _ _ ONone HS HL' HI') as [d [Er Hg]].
+        rewrite Er. simpl. split; [exact Hg | intros e H; discriminate].
+    + apply Hsame. eapply nav_err_benign; eassumption.
 Qed.
 
 (** Under the guard the proxy's edit is always reported and merged (never the
@@ -222,7 +238,7 @@ Lemma step_with_not_local S fs c d0 o : op_ok S o = true -> op_live c o ->
   forall l, snd (step_with d0 fs c o) <> LocalOnly l.
 Proof.
   intros Hok Hlive l. unfold op_live in Hlive.
-  destruct o; simpl in Hok; try discriminate; simpl in Hlive; unfold step_with, merged, with_flag; simpl;
+  destruct o; simpl in Hok; try discriminate; simpl in Hlive; unfold step_with, merged, with_flag, do_update; simpl;
     repeat (first
       [ rewrite excise_not_blocked by (apply clear_upto_above; exact Hlive)
       | rewrite del_not_blocked by (apply clear_upto_above; exact Hlive)
